@@ -209,6 +209,30 @@ Theorem C10_geom_twap_true_mean_partial : forall (lg ex : Z -> option Z) (eta de
 Proof. exact geom_twap_true_mean. Qed.
 Print Assumptions C10_geom_twap_true_mean_partial.
 
+(* ... and for the model's own twap_log and exp2: given the two accuracy statements
+     exp2_accuracy_stmt      |Exp2 e - 2^e| <= 1e-19 * 2^e wherever exp2 answers
+     twap_log_accuracy_stmt  twap_log is defined and within 2e-18 of log2 on every price in (0, 2^128 - 1]
+   - both PROVED in C10/BridgeC13.v [accuracy_statements] from C13's theorems C13_exp2_relative_error and C13_log2_error through
+   bridges exp2_agree / log_base2_agree (C10's copies return what C13's models return); that file is built and checked on
+   every run but kept out of this file's dependency cone because Coq-Interval makes coqchk run > 30 min -
+   the geometric TWAP of every history, over every interval inside the window on which the recorded prices are positive and the
+   accumulator difference is non-zero, is within 5.1e-8 relative + 3e-18 of two to the TRUE time-weighted mean of log2(price):
+   "equals two to the time-weighted mean of their base-2 logarithms, to the stated precision" (SigFigRound keeps 8 digits). *)
+Theorem C10_geom_twap_model_partial :
+  exp2_accuracy_stmt -> twap_log_accuracy_stmt ->
+  forall t0 h0 w0 w1 evs p G now q0 start stop f v,
+  history twap_log t0 h0 w0 w1 evs p G -> r_time (p_recent p) <= now ->
+  t0 <= start -> max_keep t0 evs <= start -> ms start < ms stop ->
+  twap_between twap_log exp2 now p q0 true start stop = QVal f v ->
+  let price := price_at (spec_events t0 w0 w1 evs) true 0 in
+  integral (fun tau => glogv twap_log (price tau)) (ms start) (ms stop) <> 0 ->
+  (forall tau, ms start <= tau < ms stop -> 0 < price tau <= maxp) ->
+  let M := (rintegral (fun tau => log2R (dR (price tau))) (ms start) (ms stop) / IZR (ms stop - ms start))%R in
+  let target := Rpower 2 (if q0 then M else (- M)%R) in
+  (Rabs (dR v - target) <= (51 / 10 ^ 9 + 9 / 10 ^ 18) * target + 3 / 10 ^ 18)%R.
+Proof. exact geom_twap_model. Qed.
+Print Assumptions C10_geom_twap_model_partial.
+
 (* the integer facts behind it: SigFigRound(d, 10^8) stays within d/(2*10^7) + 1 units of d *)
 Theorem C10_sigfig_round_close : forall d v, sigfig_round d = Some v -> 0 < d ->
   Z.abs (v - d) * (2 * 10 ^ 7) <= d + 2 * 10 ^ 7.
